@@ -83,6 +83,17 @@ def run(rep):
         conf = 'maildir "~/md" {\n\tmatch date %s%s %d seconds move "~/dst/a"\n}\n' % (rng.choice(['', 'header ']), cmp_, thr)
         cases.append(ec.Case(conf, [], b'To: a\nDate: ' + date + b'\n\nb\n', 'new', '1.host', '0', tz=rng.choice(TZS[:-2])))
         expect.append(('age', (age > thr) if cmp_ == '>' else (age < thr)))
+    # file-time fields: the message file gets an old modification time; its access and change times are recent (the harness
+    # reports what stat() says after the evaluation); `modified` must use st_mtim, `created` st_ctim, `access` st_atim
+    for _ in range(n // 6):
+        fld = rng.choice(['modified', 'modified', 'created', 'access'])
+        age = rng.choice([100, 3600, 86400 * 3, 604800, 2592000 + 5, 31536000, rng.randrange(100, 10 ** 8)])
+        cmp_ = rng.choice(['<', '>'])
+        thr = max(0, age + rng.choice([-1, 0, 1, -1, 0, 1, 1000, -90]))
+        conf = 'maildir "~/md" {\n\tmatch date %s %s %d seconds move "~/dst/a"\n}\n' % (fld, cmp_, thr)
+        cases.append(ec.Case(conf, [], b'To: a\nDate: ' + ec.gm(ec.NOW - 5) + b' +0000\n\nb\n', 'new', '1.host', rng.choice(['0', '0', '1']),
+                             tz=rng.choice(TZS[:-2]), mtime=ec.NOW - age))
+        expect.append(('field', (fld, cmp_, thr)))
     lexemes = set()
     for name, v in UNITS:
         for k in range(1, len(name) + 1):
@@ -100,6 +111,27 @@ def run(rep):
     for c, (kind, want) in zip(cases, expect):
         if c.note == 'fault':
             rep.finding('sanitizer-fault', dict(c.readable(), implementation=c.impl))
+            continue
+        if kind == 'field':
+            fld, cmp_, thr = want
+            stat['field_cases'] = stat.get('field_cases', 0) + 1
+            if not c.times or len(c.times) != 6:
+                rep.finding('unlisted', dict(c.readable(), implementation=(c.impl or '')[:200], what='harness did not report the file times'))
+                continue
+            a_, m_, c_ = (int(x) for x in c.times[:3])
+            tim = {'access': a_, 'modified': m_, 'created': c_}[fld]
+            agef = ec.NOW - tim
+            exp = (agef > thr) if cmp_ == '>' else (agef < thr)
+            got = c.impl.split(' ')[0] if c.impl else None
+            # the three times must differ enough for a swapped field to be visible
+            if abs(m_ - c_) > 50:
+                stat['field_distinct'] = stat.get('field_distinct', 0) + 1
+            if got != ('MATCH' if exp else 'NOMATCH'):
+                rep.finding('unlisted', dict(c.readable(), implementation=c.impl[:200], specification='MATCH' if exp else 'NOMATCH',
+                                             file_times={'atime': a_, 'mtime': m_, 'ctime': c_, 'now': ec.NOW},
+                                             what='date %s does not compare the age of the file\'s %s time' % (fld, fld)))
+            elif c.model is not None and (c.impl if c.dry == '1' else ec.impl_core(c)) != (c.model if c.dry == '1' else ec.model_core(c)):
+                bad_corr.append(c)
             continue
         if kind == 'age':
             stat['age_cases'] += 1
@@ -138,7 +170,8 @@ def run(rep):
         'correspondence_mismatches': len(d.corr_mismatch) + len(bad_corr),
         'spec_failures': len(d.spec_fail),
     })
-    rep.assumptions += ['created/access/modified fields (stat timestamps) are exercised by the process-level checks, not here']
+    rep.assumptions += ['file-time fields: the harness gives the file an old mtime and reports the stat times after the evaluation; atime and '
+                        'ctime are both "now" on this file system (a swap between those two would not be seen, a swap with mtime is)']
 
 
 def replay(rep, path):
